@@ -527,6 +527,25 @@ func hooksC17() Hooks {
 				touched[s.Base] = s
 			}
 		}
+		// a delete that takes the newest message leaves a new, empty head named after NextOffset:
+		// a new segment, so in NewSegmentsVersion (V2: the 8-byte file header, V1: an empty file)
+		hadPre := map[int64]bool{}
+		for _, s := range pre {
+			hadPre[s.Base] = true
+		}
+		for _, s := range post {
+			if !hadPre[s.Base] && s.Base == r.M.Next && (s.Size == 0 || s.Size == 8) {
+				got := refcodec.V1
+				if s.Size == 8 {
+					got = refcodec.V2
+				}
+				if got != nv {
+					r.violate("version|new-empty-head", "the empty head segment %d created by %s is %s, NewSegmentsVersion is %s", s.Base, kind, verName(got), verName(nv))
+					return
+				}
+				r.probe("new_empty_head_version_checked")
+			}
+		}
 		for _, ps := range touched {
 			hi := int64(1 << 62)
 			for _, s := range pre {
